@@ -594,7 +594,7 @@ def SGroupE.gspec (x : XCfg) (s : StreamE) (g : SGroupE) : GSpec :=
     g.consumers.map g.cspec⟩
 
 theorem group_cmds_eq (x : XCfg) (s : StreamE) (k : Bytes) (g : SGroupE) :
-    SGroupE.cmds x s k g = groupCmds false k (g.gspec x s) := by
+    SGroupE.cmds x s k g = groupCmds x.hasCreateConsumer k (g.gspec x s) := by
   simp only [SGroupE.cmds, groupCmds, SGroupE.gspec, List.flatMap_map, consumerCmds, SGroupE.cspec, List.map_map,
     List.length_map]
   congr 1
@@ -645,34 +645,35 @@ theorem filter_cspec (s : StreamE) (g : SGroupE) (c : SConsumerE) :
   intro p _
   exact liveIn_toX s p _ _ _
 
-theorem keeps_cspec (s : StreamE) (g : SGroupE) (c : SConsumerE) :
-    keeps false (toX s.liveT) (g.cspec c) = SGroupE.keepsConsumer s c := by
+theorem keeps_cspec (cc : Bool) (s : StreamE) (g : SGroupE) (c : SConsumerE) :
+    keeps cc (toX s.liveT) (g.cspec c) = ((cc && c.pel.isEmpty) || c.pel.any s.isLive) := by
   rw [cspec_eq]
-  unfold keeps SGroupE.keepsConsumer
+  unfold keeps
   have h1 : (c.pel.map (nackOfP g c.name.val)).isEmpty = c.pel.isEmpty := by cases c.pel <;> rfl
   have h2 : (c.pel.map (nackOfP g c.name.val)).any (liveIn (toX s.liveT)) = c.pel.any s.isLive := by
     rw [List.any_map]
     apply any_congrL
     intro p _
     exact liveIn_toX s p _ _ _
-  simp only [h1, h2, Bool.false_and, Bool.false_or]
+  simp only [h1, h2]
 
 theorem gspec_toX (x : XCfg) (s : StreamE) (g : SGroupE) :
-    (g.gspec x s).toX false (toX s.liveT) = g.xgroup x s := by
+    (g.gspec x s).toX x.hasCreateConsumer (toX s.liveT) = g.xgroup x s := by
   have hp : (g.consumers.map g.cspec).flatMap (fun c => c.2.filter (liveIn (toX s.liveT))) = g.pelX s := by
     rw [List.flatMap_map]
     unfold SGroupE.pelX
     apply flatMap_congrL
     intro c _
     exact filter_cspec s g c
-  have hc : ((g.consumers.map g.cspec).filter (keeps false (toX s.liveT))).map (·.1) = g.consumersX s := by
-    unfold SGroupE.consumersX
+  have hc : ((g.consumers.map g.cspec).filter (keeps x.hasCreateConsumer (toX s.liveT))).map (·.1) =
+      g.consumersIdeal x s := by
+    unfold SGroupE.consumersIdeal
     rw [List.filter_map, List.map_map]
-    have : (g.consumers.filter (keeps false (toX s.liveT) ∘ g.cspec)) =
-        g.consumers.filter (SGroupE.keepsConsumer s) := by
+    have : (g.consumers.filter (keeps x.hasCreateConsumer (toX s.liveT) ∘ g.cspec)) =
+        g.consumers.filter (fun c => (x.hasCreateConsumer && c.pel.isEmpty) || c.pel.any s.isLive) := by
       apply List.filter_congr
       intro c _
-      exact keeps_cspec s g c
+      exact keeps_cspec x.hasCreateConsumer s g c
     rw [this]
     rfl
   simp only [GSpec.toX, SGroupE.gspec, SGroupE.xgroup, hp, hc]
@@ -776,8 +777,8 @@ theorem stream_cmds_apply (ks : Keyspace) (k : Bytes) (x : XCfg) (s : StreamE)
   rw [hshape, applyCmds_append, h1]
   simp only [Option.bind_some, applyCmds_append]
   have hgroups : s.groups.flatMap (SGroupE.cmds x s k) =
-      (s.groups.map (SGroupE.gspec x s)).flatMap (groupCmds false k) := by
-    rw [List.flatMap_map, show SGroupE.cmds x s k = fun g => groupCmds false k (g.gspec x s) from
+      (s.groups.map (SGroupE.gspec x s)).flatMap (groupCmds x.hasCreateConsumer k) := by
+    rw [List.flatMap_map, show SGroupE.cmds x s k = fun g => groupCmds x.hasCreateConsumer k (g.gspec x s) from
       funext (group_cmds_eq x s k)]
   have hnames : (([] : List XGroup).map (·.name) ++ (s.groups.map (SGroupE.gspec x s)).map (·.name)).Nodup := by
     simpa [List.map_map, SGroupE.gspec, Function.comp_def] using hgn
@@ -787,7 +788,7 @@ theorem stream_cmds_apply (ks : Keyspace) (k : Bytes) (x : XCfg) (s : StreamE)
     exact hgok g0 hg0
   have htopX : topOkFor (toX s.liveT) (fmtId s.lastMs s.lastSeq) = true :=
     topOk_toX s.liveT (s.lastMs, s.lastSeq) (by rw [liveIds_liveT]; exact htop)
-  have hxg : (s.groups.map (SGroupE.gspec x s)).map (GSpec.toX false (toX s.liveT)) =
+  have hxg : (s.groups.map (SGroupE.gspec x s)).map (GSpec.toX x.hasCreateConsumer (toX s.liveT)) =
       s.groups.map (SGroupE.xgroup x s) := by
     rw [List.map_map]
     apply List.map_congr_left
@@ -805,7 +806,7 @@ theorem stream_cmds_apply (ks : Keyspace) (k : Bytes) (x : XCfg) (s : StreamE)
       (by simp only [toX, List.length_map]; omega) rfl]
     simp only [Option.bind_some]
     rw [hgroups]
-    have := groups_fold ks k hfr 0 false (s.groups.map (SGroupE.gspec x s))
+    have := groups_fold ks k hfr 0 x.hasCreateConsumer (s.groups.map (SGroupE.gspec x s))
       { entries := toX s.liveT, lastId := fmtId s.lastMs s.lastSeq, entriesAdded := some (natToDec s.added),
         maxDeleted := some (fmtId s.maxDel.1 s.maxDel.2) } hnames hoks
     rw [this]
@@ -814,7 +815,7 @@ theorem stream_cmds_apply (ks : Keyspace) (k : Bytes) (x : XCfg) (s : StreamE)
     rw [xsetid_plain ks k _ _ 0 hfr (validId_fmtId _ _ hlm hls) htopX]
     simp only [Option.bind_some]
     rw [hgroups]
-    have := groups_fold ks k hfr 0 false (s.groups.map (SGroupE.gspec x s))
+    have := groups_fold ks k hfr 0 x.hasCreateConsumer (s.groups.map (SGroupE.gspec x s))
       { entries := toX s.liveT, lastId := fmtId s.lastMs s.lastSeq } hnames hoks
     rw [this]
     simp [StreamE.xval, h7, entriesX_liveT, hxg]
